@@ -112,6 +112,40 @@ def ob_parse_literal(chk, P):
         ob.absorb(ex)
 
 
+def ob_parse_literal_strings(chk, P):
+    with chk.obligation('parse_literal/strings', "a string literal denotes exactly the text between its two delimiting quotes: characters of the other quote style, spaces and non-ASCII characters inside are kept; no panic",
+                        {'text': "quote in {', \"} + 0..3 characters (any Unicode scalar value except the delimiting quote, as the grammar guarantees) + the same quote"}) as ob:
+        from checks.C13 import eq_chars
+        from mirsym.models.strings import valid_char
+        ex = Executor(P, models_with([])); ex.seed = chk.seed
+        fn = P.find(r'^fn (?:\w+::)*parse_literal\(', 'core')
+        for q in ("'", '"'):
+            for n in range(4):
+                st = State()
+                cs = [z3.BitVec(f'c{i}', 32) for i in range(n)]
+                for c in cs: st.assume(z3.And(valid_char(c), c != ord(q)))
+                text = StrV([ord(q)] + cs + [ord(q)], 'str')
+                lit = pair_stub('Literal', None, [pair_stub('StringLiteral', text)])
+                for s2, kind, val in ex.run(fn, [lit], st):
+                    ob.paths += 1; ob.reached()
+                    def report(role, what, mo):
+                        body = ''.join(chr(mo.eval(c, model_completion=True).as_long()) for c in cs)
+                        ob.violation(role, f'{what}: literal {q}{body}{q}', {'text': q + body + q}, {'kind': 'template', 'template': '[{{ ' + q + body + q + ' }}]'},
+                                     lambda r, e='[' + body + ']': r.get('outcome') != 'ok' or r.get('output') != e)
+                    if kind == 'panic':
+                        report('parse_literal/string/panic', f'parse_literal panics ({val})', ob.decide(ex, s2.conds, z3.BoolVal(True))); continue
+                    got = None
+                    if isinstance(val, Adt) and val.variant == 'Scalar':
+                        inner = val.items[0].items[0]
+                        if inner.variant == 'Str': got = list(s2.deref_all(inner.items[0]).chars)
+                    mo = ob.decide(ex, s2.conds, z3.Not(eq_chars(got, cs)) if got is not None else z3.BoolVal(True))
+                    if mo is not None:
+                        shown = ''.join(chr(mo.eval(c, model_completion=True).as_long()) if not isinstance(c, int) else chr(c) for c in got) if got is not None else repr(val)
+                        report('parse_literal/string/wrong-value', f'denotes {shown!r}', mo)
+            ob.sample({'quote': q})
+        ob.absorb(ex)
+
+
 def pair_stub(rule, text=None, children=()):
     def handler(ctx, me, args, st):
         m = method_of(ctx.callee)
@@ -130,6 +164,7 @@ def run(chk):
     ob_literals(chk, rules, gh)
     P = chk.program(('core', 'lib'))
     ob_parse_literal(chk, P)
+    ob_parse_literal_strings(chk, P)
     ob_token_helpers(chk, P)
     ob_block_structure(chk, P, 3 if chk.tier == 'quick' else 4)
     ob_stdlib_blocks(chk, P, 3 if chk.tier == 'quick' else 4)
